@@ -1,0 +1,17 @@
+//go:build !verif
+
+// Package verifhook holds scheduling hooks used by the external verification
+// harness. Without the "verif" build tag every function is an empty, inlinable
+// no-op.
+package verifhook
+
+import "context"
+
+// Yield marks a point where a test scheduler may interleave other work.
+func Yield(ctx context.Context, point string) {}
+
+// Await is placed just before a blocking receive on ch.
+func Await(ctx context.Context, point string, ch <-chan struct{}) {}
+
+// Expose hands an otherwise unreachable object to the harness.
+func Expose(ctx context.Context, name string, v any) {}
